@@ -11,7 +11,12 @@ func init() { register("C01", checkC01) }
 
 // labelRun is the labeler shared by the run-phase rules.
 func (a *Anchors) labelRun(info *types.Info) Labeler {
-	return func(call *ast.CallExpr, obj types.Object) string {
+	return func(call *ast.CallExpr, obj types.Object) string { return a.labelObj(obj) }
+}
+
+// labelObj names the callee objects the run-phase rules care about.
+func (a *Anchors) labelObj(obj types.Object) string {
+	{
 		if _, isVar := obj.(*types.Var); isVar {
 			return ""
 		}
@@ -346,6 +351,26 @@ func sharedWait(c *Check, a *Anchors) {
 		}
 		return ""
 	}
+	// fromrec:<var> — the variable was assigned from the recorded execution on every path
+	f.AssignHook = func(v *types.Var, rhs ast.Expr, st Facts) {
+		k := "fromrec:" + defPrefix(v)
+		delete(st, k)
+		if rhs == nil {
+			return
+		}
+		from := mentions(info, rhs, recVar)
+		ast.Inspect(rhs, func(n ast.Node) bool {
+			if id, ok := n.(*ast.Ident); ok {
+				if ov, ok := info.Uses[id].(*types.Var); ok && st.Has("fromrec:"+defPrefix(ov)) {
+					from = true
+				}
+			}
+			return true
+		})
+		if from {
+			st[k] = true
+		}
+	}
 	f.Run()
 	nFound, nReg := 0, 0
 	for i, r := range f.Returns {
@@ -356,7 +381,10 @@ func sharedWait(c *Check, a *Anchors) {
 			c.Decide(st.Has("called:waited"), "shared-wait", fmt.Sprintf("wait-before-return#%d@%s", nFound, name), r.Pos(),
 				"a receive on the recorded execution precedes this return on every path",
 				"a caller of an already registered execution can return without having waited for its completion (no receive on the recorded execution on every path to this return)")
-			dep := res != nil && !isNilLit(info, res) && mentionsVia(info, fb.Body, res, recVar, 2)
+			dep := res != nil && !isNilLit(info, res) && mentions(info, res, recVar)
+			if v := varOf(info, res); v != nil && st.Has("fromrec:"+defPrefix(v)) {
+				dep = true
+			}
 			c.Decide(dep, "shared-wait", fmt.Sprintf("outcome-observed#%d@%s", nFound, name), r.Pos(),
 				"the returned error is read from the recorded execution",
 				fmt.Sprintf("the waiter returns %s, which does not depend on the recorded outcome of the real execution: a failed shared dependency looks successful to this caller", exprStr(res)))
